@@ -36,6 +36,14 @@ RULE_BIG = ("large products through the real apply_input_plugins: field lengths 
             "(harness-side specification, independent of the plugin; not evaluated in Coq)")
 
 
+RULE_BIND = ("batches of 0-4 queries as JSON strings through CompassAppBindings::from_config_toml_string / run_queries (a wrapper "
+             "struct implementing the trait as routee-compass-py does) on a 3x3 street grid app whose configuration enables "
+             "grid_search; queries without a section and with 0-, 1-, 2-, 3-dimensional grid sections (scalar / object options, "
+             "options that change the destination), JSON strings out; I = number of responses + sorted multiset of the request "
+             "echo of every response; S = Coq: concatenation of GS.spec over the batch (one response per expanded query), sorted; "
+             "non-trivial = some query of the batch has >=1 array field")
+
+
 def classify(case, i, m, s):
     return None
 
@@ -76,7 +84,8 @@ def run(chk):
     if chk.replay:
         try:
             case = json.load(open(chk.replay)).get("case", {})
-            replay_stream = "mset" if "sets" in case else ("gridbig" if "lens" in case else "grid")
+            replay_stream = ("mset" if "sets" in case else "gridbig" if "lens" in case else
+                             "bindings" if "batch" in case else "grid")
         except Exception:  # noqa
             replay_stream = "grid"
     n = 800 if chk.tier == "quick" else 12000
@@ -88,6 +97,17 @@ def run(chk):
             chk.coverage["streams"]["corpus:" + stream] = {"cases": rc.stats.get("cases", 0), "rule": "corpus/C17/witnesses.json replayed"}
             vf.compare(chk, rc, spec_tag=("S" if stream == "gridset" else "-"), classify=classify, binpath=binp,
                        stream_label="corpus:" + stream)
+    if not chk.replay and os.path.exists(corpus):
+        rc = vf.run_stream(binp, "bindings", 1, chk.seed, os.path.join(chk.outdir, "corpus_bindings"), shards=1, replay=corpus)
+        chk.coverage["streams"]["corpus:bindings"] = {"cases": rc.stats.get("cases", 0), "rule": "corpus/C17/witnesses.json (batch cases) replayed"}
+        vf.compare(chk, rc, model_tag="S", classify=classify, binpath=binp, stream_label="corpus:bindings")
+    if replay_stream in (None, "bindings"):
+        rq = vf.run_stream(binp, "bindings", 60 if chk.tier == "quick" else 600, chk.seed, os.path.join(chk.outdir, "bindings"),
+                           replay=chk.replay)
+        chk.add_stream(rq, RULE_BIND)
+        vf.compare(chk, rq, model_tag="S", classify=classify, binpath=binp)
+    if replay_stream == "bindings":
+        return finish(chk)
     if replay_stream in (None, "gridbig"):
         rb = vf.run_stream(binp, "gridbig", 30 if chk.tier == "quick" else 120, chk.seed, os.path.join(chk.outdir, "gridbig"),
                            replay=chk.replay)
